@@ -130,6 +130,38 @@ def stepBitmap (st : St) (op : String) (kv : KV) : St × String :=
       | "b.sdirty" => (st, fmtRes (dirtyVia b base (kv.nat "off")) (fun x => s!"ok {x}"))
       | _ => (st, "bad-op")
 
+/-! ### atomic step programs (C08): run a public operation and print the atomic steps it issues -/
+def fmtStep (a : AStep) (r : BitVec 64) : String :=
+  match a with
+  | .fetchOr w m => s!"fo:{w}:{m.toNat}:{r.toNat}"
+  | .fetchAnd w m => s!"fa:{w}:{m.toNat}:{r.toNat}"
+  | .load w => s!"ld:{w}:0:{r.toNat}"
+  | .store w v => s!"st:{w}:{v.toNat}:0"
+
+def stepProgram (st : St) (op : String) (kv : KV) : St × String :=
+  let id := kv.nat "id"
+  match tget st.bms id with
+  | none => (st, "bad-id")
+  | some b =>
+    let prog : Option (List AStep) := match op with
+      | "p.mark" => some (b.rangeProgram (kv.nat "start") (kv.nat "len") true)
+      | "p.clear" => some (b.rangeProgram (kv.nat "start") (kv.nat "len") false)
+      | "p.setbit" => some (b.bitProgram (kv.nat "i") true)
+      | "p.resetbit" => some (b.bitProgram (kv.nat "i") false)
+      | "p.gar" => some b.harvestProgram
+      | "p.reset" => some b.resetProgram
+      | "p.clone" => some b.cloneProgram
+      | "p.isbit" => some (if kv.nat "i" < b.size then [.load (kv.nat "i" / 64)] else [])
+      | _ => none
+    match prog with
+    | none => (st, "bad-op")
+    | some p =>
+      if p.all (ABitmap.stepInRange b.map) then
+        let (ws, rets) := runAll b.map p
+        let steps := " ".intercalate ((p.zip rets).map fun (a, r) => fmtStep a r)
+        ({ st with bms := tset st.bms id { b with map := ws } }, s!"ok steps={steps} w={fmtWords ws}")
+      else (st, "panic")
+
 /-! ### copy plan (C06) -/
 def fmtTrace : CopyTrace → String
   | .bulk n => s!"bulk {n}"
@@ -461,6 +493,7 @@ def step (st : St) (line : String) : St × String :=
   else if op.startsWith "a." then (st, stepAddr st op kv)
   else if op.startsWith "e." then (st, stepEndian op kv)
   else if op.startsWith "b." then stepBitmap st op kv
+  else if op.startsWith "p." then stepProgram st op kv
   else if op.startsWith "s." then stepSlice st op kv
   else if op.startsWith "rd." || op.startsWith "wr." then stepStream st op kv
   else if op.startsWith "g." || op.startsWith "gr." then stepGuest st op kv
